@@ -13,15 +13,83 @@ background client.  A second batch on the same BatchProxy follows in part of the
 of A and B are compared directly and through fresh normal calls.
 """
 import copy
+import errno
 import json
+import select as _select
+import socket as _socket
+import sys
 import threading
 
 from ..world import World
 from .. import sched as S
+from .. import net as N
 from .common import Server, SERIALIZERS
 from ..seams import config, CL, SV, SU
 import Pyro5.api as api
 import Pyro5.errors as E
+
+
+_RUN = {"sched": None}
+
+
+class _SelectShim:
+    """select.select() over the in-memory sockets, and MSG_PEEK for their recv().  The kernel has no seam for the `select`
+    module (the unchanged Pyro5 never reaches it inside a run); a changed tree that polls a connection with
+    select + recv(MSG_PEEK) would otherwise hit the REAL select with made-up descriptor numbers.  Installed for the
+    duration of a run in every Pyro5 module that imported `select`; belongs into sim/seams.py + sim/net.py eventually."""
+
+    def __init__(self, sched):
+        self._s = sched
+        self._patched = []
+        self._recv = None
+
+    def __getattr__(self, name):
+        return getattr(_select, name)
+
+    @staticmethod
+    def _readable(s):
+        return bool(s.rx) or s.eof or s.reset or s.closed or s.shut_rd
+
+    def select(self, rlist, wlist, xlist, timeout=None):
+        def ready():
+            return [s for s in rlist if self._readable(s)]
+        r = ready()
+        if not r and not wlist and (timeout is None or timeout > 0):
+            self._s.block(lambda: bool(ready()), timeout, "select.select")
+            r = ready()
+        return r, list(wlist), []
+
+    def install(self):
+        for name, m in sorted(sys.modules.items()):
+            if name.startswith("Pyro5.") and getattr(m, "select", None) is _select:
+                m.select = self
+                self._patched.append(m)
+        shim, orig = self, N.SimSocket.recv
+        self._recv = orig
+
+        def recv(sock, n, flags=0):
+            if not flags & _socket.MSG_PEEK:
+                return orig(sock, n, flags)
+            if sock.closed:
+                raise OSError(errno.EBADF, "Bad file descriptor")
+            if not shim._readable(sock):
+                if sock.timeout == 0.0:
+                    raise BlockingIOError(errno.EAGAIN, "Resource temporarily unavailable")
+                if not shim._s.block(lambda: shim._readable(sock), sock.timeout, "recv-peek"):
+                    raise _socket.timeout("timed out")
+            if sock.rx:
+                return bytes(sock.rx[:n])
+            if sock.reset:
+                raise ConnectionResetError(errno.ECONNRESET, "Connection reset by peer")
+            return b""
+
+        N.SimSocket.recv = recv
+
+    def uninstall(self):
+        for m in self._patched:
+            m.select = _select
+        if self._recv is not None:
+            N.SimSocket.recv = self._recv
 
 
 class Acc:
@@ -73,6 +141,16 @@ class Acc:
             raise ValueError(x, "negative")
         self.last = x
         return [x, len(self.log)]
+
+    @api.expose
+    def work(self, d):
+        """takes d seconds of the run's virtual clock (nothing on the local, never-remoted model instance)"""
+        self.log.append(["work", d])
+        s = _RUN.get("sched")
+        if s is not None and not getattr(self, "_local", False):
+            s.sleep(d)
+        self.last = d
+        return len(self.log)
 
     def hidden(self, x):
         self.log.append(["hidden", x])
@@ -153,9 +231,11 @@ def _val(rng, huge, depth=0):
     return {rng.choice(_KEYS): _val(rng, huge, depth + 1) for _ in range(rng.randint(0, 3))}
 
 
-def _call(rng, huge):
-    k = rng.choices(["add", "push", "put", "get", "div", "check", "hidden", "_secret", "nosuch", "addstr"],
-                    [4, 3, 3, 1, 2, 2, 0.35, 0.35, 0.25, 0.2])[0]
+def _call(rng, huge, slow=False):
+    k = rng.choices(["add", "push", "put", "get", "div", "check", "hidden", "_secret", "nosuch", "addstr", "work"],
+                    [4, 3, 3, 1, 2, 2, 0.35, 0.35, 0.25, 0.2, 10 if slow else 0.3])[0]
+    if k == "work":
+        return {"m": "work", "a": [rng.choice([0.4, 0.5, 0.6, 0.7])], "k": {}}
     if k == "add":
         return {"m": "add", "a": [_num(rng, huge)], "k": {}}
     if k == "addstr":       # a method that fails by itself on the argument type
@@ -214,6 +294,21 @@ def _codes():
     return _CODES
 
 
+_SER_CODES = None
+
+
+def _ser_codes():
+    global _SER_CODES
+    if _SER_CODES is None:
+        import Pyro5.serializers as SER
+        import Pyro5.core as CORE
+        _SER_CODES = S.code_objects(*([v for v in vars(SER).values()
+                                       if (isinstance(v, type) and v.__module__ == SER.__name__) or
+                                       (hasattr(v, "__code__") and getattr(v, "__module__", "") == SER.__name__)]
+                                      + [CORE._ExceptionWrapper]))
+    return _SER_CODES
+
+
 class BatchWorld(World):
     PROPERTY = "C11"
     NAME = "batch"
@@ -229,7 +324,8 @@ class BatchWorld(World):
               "oneway_batch", "oneway_with_failure", "state_compared", "serpent", "json", "marshal", "msgpack",
               "multiplex", "thread", "second_batch", "concurrent", "kwargs", "failure_at_position", "failure_at_submission",
               "background_interleaved", "compressed", "fragmented", "instance_target", "session_class", "percall_class",
-              "peer_client", "reconnected", "session_state_compared", "class_instances_compared"]
+              "peer_client", "reconnected", "session_state_compared", "class_instances_compared", "slow_batch",
+              "hangup_after_oneway", "abandoned_slow_oneway", "client_gave_up", "serializer_lines"]
     RULE = ("plan = (target: registered instances / session-mode classes / percall-mode classes; server type, serializer, "
             "compression, MSG_WAITALL, fragmentation, batch mode normal/one-way, 0-8 calls over add/push/put(kwargs)/get/div/check/"
             "hidden/_secret/nosuch with arguments from the lossless core, optional second batch of 0-4 calls on the same BatchProxy; "
@@ -250,7 +346,7 @@ class BatchWorld(World):
                    "percall-mode class: a batch runs on one fresh instance, so its identical object is a fresh instance that gets the "
                    "calls one by one (a session-mode reference class whose connection is renewed before every batch)",
                    "instances the daemon created for a class are compared as a multiset of states, untouched instances ignored"]
-    QUICK_RUNS = 5000
+    QUICK_RUNS = 4000
     CHUNK = 100
     SHRINK_LISTS = ["calls", "second", "again", "peer.calls", "peer.second"]
 
@@ -263,32 +359,50 @@ class BatchWorld(World):
         lines = servertype == "thread" and rng.random() < 0.6
         target = rng.choices(["instance", "session", "percall"], [5, 3, 2])[0]
         modes = ["normal", "normal", "oneway"]
+        slow = rng.random() < 0.3
         n = rng.randint(0, 8)
-        calls = [_call(rng, huge) for _ in range(n)]
+        calls = [_call(rng, huge, slow) for _ in range(n)]
         second = None
         if rng.random() < 0.35:
-            second = [_call(rng, huge) for _ in range(rng.randint(0, 6 if big else 4))]
+            second = [_call(rng, huge, slow) for _ in range(rng.randint(0, 6 if big else 4))]
         plan = {"target": target, "servertype": servertype, "serializer": serializer, "compression": rng.random() < 0.35,
                 "waitall": rng.random() < 0.5, "mode": rng.choice(modes),
                 "calls": calls, "second": second, "mode2": rng.choice(modes),
                 "concurrent": rng.random() < 0.5, "a_first": rng.random() < 0.5, "bg": rng.choice([0, 2, 4, 6]),
                 "net": {"p_frag": rng.choice([0.0, 0.0, 0.3, 0.8]), "shuffle_select": rng.random() < 0.5},
                 "lines": lines, "p_line": rng.choice([0.01, 0.03, 0.1]) if lines else 0.0,
-                "p_block": rng.choice([0.0, 0.2, 0.6, 1.0])}
+                "p_block": rng.choice([0.0, 0.2, 0.6, 1.0]),
+                # the client releases its proxy right after submitting a one-way batch (fire and forget)
+                "hangup": rng.random() < (0.75 if slow else 0.4), "impatient": None, "ser_lines": False}
+        if slow and rng.random() < 0.5:
+            plan["mode"] = "oneway"
+        if servertype == "thread" and rng.random() < (0.6 if serializer == "msgpack" else 0.25):
+            # pre-emption at source lines inside Pyro5.serializers too (hooks that run in the middle of a dumps())
+            plan["lines"] = plan["ser_lines"] = True
+            plan["p_line"] = rng.choice([0.02, 0.05, 0.1, 0.3])
+            plan["bg"] = max(plan["bg"], 4)         # somebody else serialises at the same time
+            plan["concurrent"] = True
+        if target == "instance" and slow and rng.random() < 0.35:
+            # a normal batch whose client gives up waiting (proxy timeout) while the server is still running it
+            plan["impatient"] = rng.choice([0.5, 0.9, 1.3])
+            plan["mode"] = "normal"
+            plan["second"] = None
         if target != "instance":
             plan["concurrent"] = False
             plan["start"] = rng.choice([0, 0, 0.01, 2.0])
-            plan["again"] = [_call(rng, huge) for _ in range(rng.randint(0, 5))] if rng.random() < 0.5 else None
+            plan["again"] = [_call(rng, huge, slow) for _ in range(rng.randint(0, 5))] if rng.random() < 0.5 else None
             plan["mode3"] = rng.choice(modes)
             plan["peer"] = None
             if rng.random() < 0.75:
-                plan["peer"] = {"calls": [_call(rng, huge) for _ in range(rng.randint(0, 6))], "mode": rng.choice(modes),
-                                "second": [_call(rng, huge) for _ in range(rng.randint(0, 4))] if rng.random() < 0.35 else None,
+                plan["peer"] = {"calls": [_call(rng, huge, slow) for _ in range(rng.randint(0, 6))], "mode": rng.choice(modes),
+                                "second": [_call(rng, huge, slow) for _ in range(rng.randint(0, 4))] if rng.random() < 0.35 else None,
                                 "mode2": rng.choice(modes), "start": rng.choice([0, 0, 0.01, 2.0]), "a_first": rng.random() < 0.5}
         return plan
 
     def line_codes(self, plan):
-        return _codes() if plan.get("lines") else ()
+        if not plan.get("lines"):
+            return ()
+        return _codes() + _ser_codes() if plan.get("ser_lines") else _codes()
 
     def simplify(self, plan):
         if plan.get("second") is not None and not plan["second"]:
@@ -305,6 +419,10 @@ class BatchWorld(World):
                 yield dict(plan, peer=dict(pe, start=0))
         if plan.get("start"):
             yield dict(plan, start=0)
+        if plan.get("hangup"):
+            yield dict(plan, hangup=False)
+        if plan.get("ser_lines"):
+            yield dict(plan, ser_lines=False)
         if plan["compression"]:
             yield dict(plan, compression=False)
         if plan["net"].get("p_frag"):
@@ -330,9 +448,14 @@ class BatchWorld(World):
     # ------------------------------------------------------------------
     def scenario(self, ctx):
         registered = []
+        _RUN["sched"] = ctx.sched
+        shim = _SelectShim(ctx.sched)
+        shim.install()
         try:
             self._scenario(ctx, registered)
         finally:
+            shim.uninstall()
+            _RUN["sched"] = None
             for daemon, cls in registered:
                 try:
                     daemon.unregister(cls)      # module-level classes must not keep this run's daemon alive
@@ -379,8 +502,13 @@ class BatchWorld(World):
         flags = {"reconnected": False}
 
         def describe(x):
+            tb, last = x.__traceback__, None
+            while tb is not None:
+                last = tb.tb_frame.f_code.co_filename
+                tb = tb.tb_next
+            # "own": raised by this file's own code (a harness bug if it escapes a call), not somewhere below the Pyro5 API
             return {"cls": type(x).__name__, "args": list(getattr(x, "args", ())), "comm": isinstance(x, E.CommunicationError),
-                    "text": str(x)[:200]}
+                    "text": str(x)[:200], "own": last == __file__}
 
         def client(uris, body):
             """connect everything, wait for the other clients, then run body(*proxies)"""
@@ -425,8 +553,8 @@ class BatchWorld(World):
             return u
 
         # ---- (a) the batches on A (one BatchProxy, re-used from batch to batch)
-        def run_batches(p, batches, outA, hold):
-            for calls, mode in batches:
+        def run_batches(p, batches, outA, hold, kind="instance"):
+            for bi, (calls, mode) in enumerate(batches):
                 b = hold.get("bp")
                 if b is None:
                     b = hold["bp"] = api.BatchProxy(p)
@@ -443,6 +571,14 @@ class BatchWorld(World):
                 if mode == "oneway":
                     rec["ret_none"] = r is None
                     rec["ret"] = type(r).__name__
+                    if plan.get("hangup") and (kind != "session" or bi == len(batches) - 1):
+                        # fire and forget: the connection is closed as soon as the request is on the wire (a session
+                        # instance lives and dies with its connection, so there only after the generation's last batch)
+                        rec["hung_up"] = True
+                        p._pyroRelease()
+                        # whatever this client does next travels on a NEW connection, which the server may well serve before
+                        # the abandoned one: wait until the one-way batch is through
+                        sched.sleep(0.5 + work_of([(calls, mode)]))
                     continue
                 try:
                     it = iter(r)
@@ -480,13 +616,20 @@ class BatchWorld(World):
                         bb.push(i)
                         bb.add(2)
                         bb.check(i)
-                        list(bb())
+                        bb.check(-1 - i)        # fails: its reply carries an _ExceptionWrapper (serializer hooks run)
+                        try:
+                            list(bb())
+                        except ValueError:
+                            pass
                     else:
                         p.add(1)
                     bg["stamps"].append(sched.stamp())
                     bg["done"] += 1
             except Exception as x:  # noqa
                 bg["errors"].append(describe(x))
+
+        def work_of(group):
+            return sum(c["a"][0] for calls, _ in group for c in calls if c["m"] == "work")
 
         def safe_get(p):
             try:
@@ -514,22 +657,23 @@ class BatchWorld(World):
                         if name == "client 1" and "a0" not in marks:
                             marks["a0"] = sched.stamp()
                         if spec["a_first"]:
-                            run_batches(pa, group, u["outA"], hold)
+                            run_batches(pa, group, u["outA"], hold, target)
                             run_sequential(pb, group, u["outB"])
                         else:
                             run_sequential(pb, group, u["outB"])
-                            run_batches(pa, group, u["outA"], hold)
+                            run_batches(pa, group, u["outA"], hold, target)
                         if name == "client 1":
                             marks["a1"] = sched.stamp()
-                        if target == "session":
+                        if target == "session" and not any(r.get("hung_up") for r in u["outA"]):
                             if any(m == "oneway" for _, m in group):
-                                sched.sleep(0.5)        # quiescence: nothing else is runnable when the clock moves
+                                # quiescence: the clock only moves when nothing is runnable; calls that take time are waited for
+                                sched.sleep(0.5 + work_of(group))
                             u["getA"] = safe_get(pa)
                             u["getB"] = safe_get(pb)
             return body
 
         batches = [(jp["calls"], plan["mode"])]
-        if jp.get("second") is not None:
+        if jp.get("second") is not None and not plan.get("impatient"):
             batches.append((jp["second"], plan["mode2"]))
         ths = []
         if target == "instance":
@@ -537,6 +681,8 @@ class BatchWorld(World):
 
             def body_a(p):
                 marks["a0"] = sched.stamp()
+                if plan.get("impatient"):
+                    p._pyroTimeout = plan["impatient"]      # gives up (and closes the connection) while the batch still runs
                 run_batches(p, batches, u0["outA"], {})
                 marks["a1"] = sched.stamp()
 
@@ -586,15 +732,20 @@ class BatchWorld(World):
                 else:
                     ctx.violate("batch-hung", t.name, "client thread %s did not finish within 600 virtual seconds" % t.name)
                 return
-        sched.sleep(0.5)
+        # quiescence: a batch whose client is gone may still be running; every call that takes time is bounded by the plan
+        total_work = sum(work_of([(cl, None)]) for cl in (jp["calls"], jp.get("second") or [], jp.get("again") or [],
+                                                           (jp.get("peer") or {}).get("calls") or [],
+                                                           (jp.get("peer") or {}).get("second") or []))
+        sched.sleep(0.5 + total_work)
         sched.settle(5.0)
         if not srv.loop_alive():
             ctx.disturbed = "daemon loop died: %r" % (srv.loop_death(),)
             return
         for lst, what in ((gate["errors"], "could not connect"), (errors, "scaffolding failed")):
             if lst:
-                if all(e["comm"] for e in lst):
-                    ctx.disturbed = "a client %s: %s" % (what, lst[0]["text"])
+                if not any(e["own"] for e in lst):
+                    # nothing is injected in this world: the Pyro5 API itself failed outside a judged call
+                    ctx.disturbed = "a client %s: %s: %s" % (what, lst[0]["cls"], lst[0]["text"][:80])
                     return
                 raise S.HarnessError("client %s: %r" % (what, lst))
         config.COMPRESSION = False      # the reader's handshakes again carry hash-ordered sets
@@ -630,6 +781,8 @@ class BatchWorld(World):
             ctx.probe("concurrent")
         if flags["reconnected"]:
             ctx.probe("reconnected")
+        if plan.get("ser_lines"):
+            ctx.probe("serializer_lines")
         if target != "instance" and plan.get("peer") is not None:
             ctx.probe("peer_client")
         if bg["stamps"] and "a1" in marks and any(marks["a0"] < s < marks["a1"] for s in bg["stamps"]):
@@ -669,6 +822,7 @@ class BatchWorld(World):
             raise S.HarnessError("%s: incomplete outcome lists %d/%d of %d" % (u["tag"], len(outA), len(outB), len(batches)))
         # ---- the reference must itself be sane: B's prefix replayed on a local, never-remoted instance
         model = Acc()
+        model._local = True
         for (calls, mode), rb in zip(batches, outB):
             fail = rb["fail"]
             if fail is not None and fail["comm"]:
@@ -694,6 +848,7 @@ class BatchWorld(World):
                         return None
                     break
         u["model"] = model
+        impatient = u["kind"] == "instance" and ctx.plan.get("impatient")
 
         any_fail = False
         for bi, ((calls, mode), ra, rb) in enumerate(zip(batches, outA, outB)):
@@ -720,6 +875,16 @@ class BatchWorld(World):
                 ctx.probe(NAME_FAILS[fail["m"]])
             if any(c["k"] for c in calls[:(k + 1) if fail else n]):
                 ctx.probe("kwargs")
+            if sum(c["a"][0] for c in calls[:(k + 1) if fail else n] if c["m"] == "work") > 1.0:
+                ctx.probe("slow_batch")
+            if ra.get("hung_up"):
+                ctx.probe("hangup_after_oneway")
+                acc, m = 0.0, (k + 1) if fail else n
+                for i, c in enumerate(calls[:m]):
+                    if acc > 1.0:
+                        ctx.probe("abandoned_slow_oneway")      # calls still to be run > 1 s after the client has gone
+                        break
+                    acc += c["a"][0] if c["m"] == "work" else 0.0
             if mode == "oneway":
                 ctx.probe("oneway_batch")
                 if fail:
@@ -732,6 +897,10 @@ class BatchWorld(World):
                 continue
             # ---- normal batch
             sub, itx, res = ra["submit_exc"], ra["iter_exc"], ra["results"]
+            if impatient and sub is not None and sub["cls"] == "TimeoutError" and sub["comm"]:
+                # the client gave up waiting: no results to compare, the effects are judged at quiescence
+                ctx.probe("client_gave_up")
+                continue
             if "not_iterable" in ra:
                 ctx.violate("result-mismatch", "not-a-sequence", "%s returned %s" % (tag, ra["not_iterable"]))
                 continue
@@ -777,11 +946,13 @@ class BatchWorld(World):
                             % (tag, k, fail["m"], want, got["cls"], got["args"], where))
 
         # ---- session-mode class: the state of this connection's instance, read on the same connections
-        if u["kind"] == "session":
+        if u["kind"] == "session" and any(r.get("hung_up") for r in outA):
+            pass    # the batched connection (and with it its session instance) is gone; the instances are compared at the end
+        elif u["kind"] == "session":
             ga, gb = u["getA"], u["getB"]
             if gb is None or gb[0] != "ok":
-                if gb is not None and gb[1]["comm"]:
-                    ctx.disturbed = "reading the reference state failed: %s" % gb[1]["text"]
+                if gb is not None and not gb[1]["own"]:
+                    ctx.disturbed = "reading the reference state failed: %s: %s" % (gb[1]["cls"], gb[1]["text"][:80])
                     return None
                 raise S.HarnessError("%s: reading the reference state failed: %r" % (u["tag"], gb))
             if not same(gb[1], model.get()):
